@@ -158,6 +158,8 @@ def impl_task(c):
     t = {k: c[k] for k in ('lines', 'trailing_newline', 'allowed', 'context', 'event', 'options', 'cue',
                             'lower_case', 'remove_duplicates', 'exists')}
     t['op'] = 'create_event_file'
+    if c.get('verbose'):
+        t['verbose'] = True          # X1
     return t
 
 
@@ -268,6 +270,8 @@ def shrink(pool, driver, case, budget=1500):
             cur, changed = c, True
             continue
         cands = []
+        if cur.get('verbose'):
+            cands.append({k: v for k, v in cur.items() if k != 'verbose'})
         if cur['lower_case']:
             cands.append(dict(cur, lower_case=False))
         if cur['remove_duplicates']:
@@ -318,10 +322,11 @@ def python_snippet(c):
     return ("import gzip; from pyndl import preprocess; "
             "open('corpus.txt', 'w', encoding='utf-8', newline='\\n').write(%r); %s"
             "preprocess.create_event_file('corpus.txt', 'events.tab.gz', allowed_symbols=%s, context_structure=%r, "
-            "event_structure=%r%s, cue_structure=%r, lower_case=%r, remove_duplicates=%r); "
+            "event_structure=%r%s, cue_structure=%r, lower_case=%r, remove_duplicates=%r%s); "
             "print(gzip.open('events.tab.gz', 'rt', encoding='utf-8').read())"
             % ('\n'.join(c['lines']) + ('\n' if c['trailing_newline'] else ''), pre, allowed, c['context'],
-               c['event'], opts, c['cue'], c['lower_case'], c['remove_duplicates']))
+               c['event'], opts, c['cue'], c['lower_case'], c['remove_duplicates'],
+               ', verbose=True' if c.get('verbose') else ''))
 
 
 FIXED = [
@@ -355,6 +360,12 @@ def cases(tier):
             continue
         c['stream'] = 'existing_file' if c['exists'] else 'grammar'
         out.append(c)
+    # X1: `verbose=True` for about a quarter of the calls (own random stream: the cases above stay the
+    # same); the model knows no verbose flag, so the file must be the one written with verbose=False
+    rv = rng('C09/verbose')
+    for c in out:
+        if rv.random() < 0.25:
+            c['verbose'] = True
     return out
 
 
@@ -377,6 +388,7 @@ def run(rep, pool, driver, tier):
         rep.count('allowed:' + c['allowed']['kind'])
         rep.count('lower_case:%s' % c['lower_case'])
         rep.count('remove_duplicates:%s' % c['remove_duplicates'])
+        rep.count('verbose:%s' % bool(c.get('verbose')))
         km = n_markers(c)
         rep.count('markers_in_corpus:%s' % (km if km <= 3 else '4+'))
         rep.count('events:%s' % ('0' if nev == 0 else '1-5' if nev <= 5 else '6-20' if nev <= 20 else '21+'))
